@@ -160,8 +160,11 @@ pub fn gen_sequence(conn_tag: usize, o: &SeqOpts) -> Vec<ReqItem> {
         if close_at == Some(k) {
             spec.headers.push((t::pick(&["Connection", "connection"]).to_string(), t::pick(&["close", "Close"]).as_bytes().to_vec()));
         }
-        while spec.head_bytes().len() >= 1024 {
+        while spec.head_bytes().len() > 1024 {
             spec.headers.remove(0);
+        }
+        if close_at != Some(k) {
+            crate::reqmodel::maybe_pad_to_buffer_edge(&mut spec);
         }
         let mut item = ReqItem { spec, malformed: None };
         if o.allow_malformed && close_at != Some(k) && t::chance(1, 10) {
